@@ -1114,8 +1114,9 @@ struct Store {
             auto lap = [&](const char* what) { if (getenv("VERIF_TIMING")) fprintf(stderr, "timing:   child %7.1f ms %s\n", std::chrono::duration<double, std::milli>(std::chrono::steady_clock::now() - c0).count(), what); };
             try {
                 simfs::Arm(dir);
-                // never destroyed: this process has no LevelDB background thread, so closing a database that has scheduled a compaction
-                // would wait forever; the process ends with _exit like a killed node
+                // never destroyed: the forked process did not inherit LevelDB's background thread (it starts its own only if the
+                // parent had not started one yet), so closing a database that has scheduled a compaction could wait forever; the
+                // process ends with _exit like a killed node. simfs faults only hit the arming (this) thread's operations.
                 SimNode& child = *new SimNode(cs.node->opts);
                 bool started = child.Start();
                 lap("started");
